@@ -381,6 +381,11 @@ def _cdf_elem(fname, x, *params):
     nan = x.nan
     for p in params:
         nan = bor(nan, Q.lift(p).nan)
+    if fname == "tcdf" and params:
+        # scipy: the cdf is NaN for non-positive degrees of freedom
+        df = Q.lift(params[0])
+        zero = Q.lift(0)
+        nan = bor(nan, df._lt(zero), df._eq(zero))
     return Q(r.n, 1, None, None, nan, False, 1)
 
 
